@@ -25,6 +25,10 @@ pub struct MyersCase {
     pub ambig: Vec<(u8, B)>,
     /// text symbols matching every pattern position
     pub wildcards: B,
+    /// boundary condition: the threshold is replaced by the smallest distance any end position has
+    /// (so the best hits sit exactly on the threshold); `k` is then ignored
+    #[serde(default)]
+    pub k_is_best: bool,
 }
 
 impl MyersCase {
@@ -171,7 +175,21 @@ pub fn myers_classes(c: &MyersCase, p: &mut Pass) {
     }
 }
 
-pub fn check_myers(c: &MyersCase) -> R {
+/// resolve `k_is_best` into a concrete threshold
+pub fn effective(c: &MyersCase) -> MyersCase {
+    let mut c2 = c.clone();
+    if c.k_is_best {
+        let dp = semi_dp(c);
+        if let Some((_, d)) = best_of(&dp, c.pattern.len()) {
+            c2.k = d.min(255);
+        }
+    }
+    c2.k_is_best = false;
+    c2
+}
+
+pub fn check_myers(c0: &MyersCase) -> R {
+    let c = &effective(c0);
     ensure!(!c.pattern.is_empty(), "harness: empty pattern");
     let m = c.pattern.len();
     let dp = semi_dp(c);
@@ -187,6 +205,7 @@ pub fn check_myers(c: &MyersCase) -> R {
     p.add_if(inexact, "hit with 0<d<=k");
     p.add_if(exp.is_empty(), "no hit");
     p.add_if(exp.iter().any(|(_, d)| *d == 0), "exact hit");
+    p.add_if(c0.k_is_best && c.k >= 1, "threshold equal to the best distance (>= 1)");
     myers_classes(c, &mut p);
     Ok(p)
 }
@@ -307,7 +326,12 @@ pub fn myers_case(text_max: usize, huge_k: bool) -> BoxedStrategy<MyersCase> {
             let k = if huge_k { prop_oneof![6 => kdist(m), 1 => khuge()].boxed() } else { kdist(m) };
             (pattern_text(sh, m, text_max), k, Just(width))
         })
-        .prop_map(|((p, t, ambig, wildcards), k, width)| MyersCase { pattern: B(p), text: B(t), k, width, ambig, wildcards })
+        .prop_map(|((p, t, ambig, wildcards), k, width)| MyersCase { pattern: B(p), text: B(t), k, width, ambig, wildcards, k_is_best: false })
+        .prop_flat_map(|c| (Just(c), 0u8..3))
+        .prop_map(|(mut c, f)| {
+            c.k_is_best = f == 0;
+            c
+        })
         .boxed()
 }
 
